@@ -8,3 +8,4 @@ HERE="$(cd "$(dirname "${BASH_SOURCE[0]}")" && pwd)"
 "$HERE/run_seeded.py" | tail -5
 "$HERE/run_mutants.py" --refactors
 "$HERE/confirm_seeded.sh" | grep -v "exit 0   with change: exit 1"
+"$HERE/known_findings_selftest.py"
